@@ -407,7 +407,7 @@ for _p in ('C01', 'C03', 'C04', 'C06', 'C07', 'C12', 'C13'):
 PROPS['C08'].setdefault('require', {}).update({'tokens.many-marks.es.accepted': 500, 'tokens.many-marks.fr.accepted': 500, 'tokens.many-marks.en.rejected': 150})
 PROPS['C12'].setdefault('require', {}).update({'longpw.typed_3_times_longer_than_it_normalises': 100, 'longpw.typed_4_times_longer_than_it_normalises': 100})
 PROPS['C13'].setdefault('require', {}).update({'hugeop.status_equals_model': 2})
-PROPS['C14'].setdefault('require', {}).update({'huge.strings_whose_length_is_a_valid_phrase_modulo_2^32': 1, 'huge.kdf_password_equals_that_of_the_first_4000_bytes': 3})
+PROPS['C14'].setdefault('require', {}).update({'huge.strings_whose_length_is_a_valid_phrase_modulo_2^32': 1, 'huge.kdf_password_is_a_long_enough_prefix': 3})
 PROPS['C16'].setdefault('require', {}).update({'load.format_reason.footer': 8, 'load.format_reason.extra-byte': 8, 'load.format_reason.secret-excess-bits': 8})
 for _p in ('C07', 'C08'):
     PROPS[_p].setdefault('require', {}).update({'bsearch.served_by.first-equal': 1000, 'bsearch.served_by.last-equal': 1000, 'bsearch.served_by.random-pivot': 1000})
